@@ -1,6 +1,8 @@
 """C07 — an error response always surfaces as a classified exception carrying its code."""
 from __future__ import annotations
 
+import itertools
+
 import lib
 from lib import call, sx
 import await_common as A
@@ -163,13 +165,17 @@ def check_send_message(ctx, model, spec):
 def check_helpers(ctx, model, spec):
     helpers = A.discover_helpers()
     ctx.extra["helpers_discovered"] = sorted(helpers)
-    codes = [-32601, -32603, -32000, -32004, 7, -32008, 2**40, -32001]
+    codes = [-32601, -32603, -32000, -32004, 7, -32008, 2**40, -32001, -32602, -32600, -32700, -32002]
     reqs = []
     for name, fn in sorted(helpers.items()):
-        for c in codes:
+        # every helper with its required arguments only, and - where it has optional ones (cursor of a listing, arguments of a
+        # prompt, preferences of a sampling request) - once more with ALL of them given
+        modes = [False, True] if A.helper_has_options(fn) else [False]
+        for c, full in itertools.product(codes, modes):
             for script in ([("err", c, None)], [("other-res",), ("same-req",), ("notif",), ("err", c, {"d": 1}), ("res",)]):
-                out = A.run_helper(fn, name, script)
-                case = {"helper": name, "script": [list(s) for s in script]}
+                out = A.run_helper(fn, name, script, full=full)
+                case = {"helper": name, "script": [list(s) for s in script], **({"all_arguments": True} if full else {})}
+                ctx.count("helper-arguments:" + ("all" if full else "required-only"))
                 ctx.case(case, nontrivial=True)
                 ctx.count("helper:" + name)
                 o = out["out"]
